@@ -6,6 +6,7 @@ from batches import op
 TRUSTED = list(op.TRUSTED) + ['ArrayVec', 'axiom_arrayvec_len', 'new', 'try_push', 'pop', 'default', 'deref', 'fmt']
 VERUS_ARGS = ['--rlimit', '40']
 RETRY_RLIMIT = 120
+MULTIPLE_ERRORS = 6
 
 OWN = ['C01', 'C07']
 
@@ -96,6 +97,7 @@ impl<A: ArrayLike> core::fmt::Debug for ArrayVec<A> {
 
 VALUE_METHODS_UN = ['abs', 'neg', 'not']
 VALUE_EXT = ['parse', 'to_u64', 'from_u64', 'convert', 'reinterpret'] + VALUE_METHODS_UN + ['add', 'sub', 'mul', 'div', 'rem', 'and', 'or', 'xor', 'shl', 'shr', 'shra', 'eq', 'ge', 'gt', 'le', 'lt', 'ne']
+TRUSTED += VALUE_EXT
 VALUE_METHODS_BIN = ['add', 'sub', 'mul', 'div', 'rem', 'and', 'or', 'xor', 'shl', 'shr', 'shra', 'eq', 'ge', 'gt', 'le', 'lt', 'ne']
 
 
